@@ -99,6 +99,23 @@ func leakCheck(before map[int]string) (leaked []string, inconclusive bool) {
 						same = false
 					}
 				}
+				// a leak is a stable state: the same goroutines must still be parked, and nothing active,
+				// on three more snapshots with the scheduler running in between
+				for k := 0; k < 3 && same; k++ {
+					for j := 0; j < 20; j++ {
+						runtime.Gosched()
+					}
+					time.Sleep(3 * time.Millisecond)
+					p3, a3 := libGoroutines()
+					if a3 != 0 {
+						same = false
+					}
+					for id := range p2 {
+						if _, ok := p3[id]; !ok {
+							same = false
+						}
+					}
+				}
 				if same {
 					for id, blk := range p2 {
 						if _, old := before[id]; !old && len(leaked) < 4 {
